@@ -78,7 +78,8 @@ func ParseDecimal(in string) (*Decimal, error) {
 	}
 
 	// The exponent is computed in 64 bits: the digits after the decimal point
-	// lower it, and it must still fit the int32 of NewDecimal afterwards.
+	// lower the written exponent, and only the result has to fit the int32 of
+	// NewDecimal (0.5d2147483648 is 5d2147483647).
 	exponent := int64(0)
 
 	d := strings.IndexAny(in, "Dd")
@@ -89,8 +90,11 @@ func ParseDecimal(in string) (*Decimal, error) {
 			return nil, &ParseError{in, "unexpected end of input after d"}
 		}
 
-		tmp, err := strconv.ParseInt(exp, 10, 32)
+		tmp, err := strconv.ParseInt(exp, 10, 64)
 		if err != nil {
+			if ne, ok := err.(*strconv.NumError); ok && ne.Err == strconv.ErrRange {
+				return nil, &ParseError{in, "exponent does not fit in 64 bits"}
+			}
 			return nil, &ParseError{in, err.Error()}
 		}
 
@@ -105,10 +109,13 @@ func ParseDecimal(in string) (*Decimal, error) {
 		fpart := in[d+1:]
 
 		exponent -= int64(len(fpart))
-		if exponent < math.MinInt32 {
-			return nil, &ParseError{in, "exponent out of range"}
-		}
 		in = ipart + fpart
+	}
+
+	// The range check is on the exponent of the value, with or without a
+	// fraction part.
+	if exponent < math.MinInt32 || exponent > math.MaxInt32 {
+		return nil, &ParseError{in, "exponent out of range"}
 	}
 
 	n, ok := new(big.Int).SetString(in, 10)
